@@ -34,6 +34,8 @@ def contains_call(n, pred):
 
 def run(ctx):
     repo, cg = ctx.repo, ctx.cg
+    from . import C17 as _C17
+    _C17.global_commit_rules(ctx, P='C19-GLOBAL')        # a failed commit over several databases ends every one of the session's caches
     lock_rules(ctx)
     conn_rules(ctx)
     call_rules(ctx)
